@@ -45,6 +45,74 @@ def parse_once(s):
         return type(e).__name__, []
 
 
+D_IR = 4 ** 5
+
+
+def ir_form(constant, factors):
+    from fractions import Fraction as F
+
+    co = {}
+    for v, a in factors.items():
+        x = F(a) * D_IR
+        if x.denominator != 1:
+            return None
+        co[str(v)] = int(x)
+    c = F(constant) * D_IR
+    if c.denominator != 1:
+        return None
+    return {"co": co, "c": int(c), "d": D_IR}
+
+
+def real_ir(case):
+    """the IR the real parse actions build for the first spelling (None if it does not parse or is not exactly representable)"""
+    import pyparsing as pp
+    from pacti.terms.polyhedra.syntax.grammar import expression
+
+    s = case["strings"][0]
+    try:
+        e = expression.parse_string(s, parse_all=True)[0]
+    except (pp.ParseBaseException, ValueError):
+        return None
+    sides = []
+    raw = [e.lhs, e.rhs] if hasattr(e, "lhs") else list(e.sides)
+    for sd_ in raw:
+        tl = sd_ if hasattr(sd_, "factors") else sd_.term_list
+        f = ir_form(tl.constant, tl.factors)
+        atl = []
+        for at in ([] if hasattr(sd_, "factors") else sd_.absolute_term_list):
+            b = ir_form(at.term_list.constant, at.term_list.factors)
+            k = ir_form(1.0 if at.coefficient is None else at.coefficient, {})
+            if b is None or k is None:
+                return None
+            atl.append({"body": b, "k": k})
+        if f is None:
+            return None
+        sides.append({"tl": f, "atl": atl})
+    return {"id": case["id"], "ev": [{"rel": case["rel"], "sides": sides, "groups": ["ir"], "string": s}]}
+
+
+def ir_conformance(rep, rd, cases, tier):
+    from tlcrun import run_tlc, stats_of, require_clean
+
+    res = run_tlc("ParserIRCheck", "ParserIRCheck.cfg" if tier == "quick" else "ParserIRCheck_thorough.cfg", rd, timeout=3000, gc="parallel")
+    require_clean(res, "ParserIRCheck")
+    st = stats_of(res)
+    st["invariants_violated"] = res["invariant_violated"]
+    rep.add_tlc(st)
+    if res["invariant_violated"]:
+        print("SPEC-DRIFT property=C09 design-level invariant %s violated in ParserIR.tla" % res["invariant_violated"], flush=True)
+    traces = [t for t in family.pmap(real_ir, cases, chunksize=8) if t]
+    v = family.judge_traces(rep, "TraceParserIR", "TraceParserIR.cfg", traces, rd, batch=600)
+    drift = 0
+    for t in traces:
+        if v[(t["id"], 1, "ir")][0] != "ok":
+            drift += 1
+            if drift <= 3:
+                print("SPEC-DRIFT property=C09 the IR built by the real parse actions differs from ParserIR.tla for: %s" % t["ev"][0]["string"], flush=True)
+    rep.cov["parser_ir_conformance"] = {"strings": len(traces), "spec_drift": drift}
+    return len(traces)
+
+
 def run_case(case):
     rel = case["rel"]
     names = gram.rel_vars(rel)
@@ -96,11 +164,12 @@ def main(tier, replay=None):
                               {"case": case, "string": ev["string"], "event": family.clean_json(ev), "verdict": [kind, detail]})
             if l == 1 and len(rep.cov["samples"]) < 3:
                 rep.sample({"string": ev["string"], "tree": ev["rel"], "outcome": ev["outcome"], "rows": [__import__("rows").row_str(r) for r in ev["rows"]], "verdict": [kind, detail]})
+    n_ir = ir_conformance(rep, rd, cases, tier) if not replay else 0
     shutil.rmtree(rd, ignore_errors=True)
     return rep.finish({
         "evaluations": n_ev,
         "distinct_nontrivial": len(nontriv),
-        "traces_validated_against_impl": len(traces),
+        "traces_validated_against_impl": len(traces) + n_ir,
         "rule": "expression trees of the documented grammar (terms, signed terms, k*(...), k|...|, parenthesised constant arithmetic, chained <= / >=, "
                 "equalities; repeated absolute-value terms; non-convex uses), each rendered in up to 4 spellings (spacing, 2x / 2*x / 2.0 x / (4/2)x / 2e0*x, "
                 "= / ==) plus a malformed variant; TLC reads the tree itself (Grammar.tla, real absolute value) and accepts the parsed rows only with "
